@@ -1,7 +1,8 @@
 """Lemmas: inductions the SMT solver does not do unprompted, written as ghost
 recursive functions with a `decreases` measure and verified by the same executor
 (the lemma's own contract is the induction hypothesis at the recursive call)."""
-from pyvc.contracts import lemma, implies
+from pyvc.contracts import lemma, implies, same
+from pyvc.dsl import dset
 import spec.core as S
 import spec.avro as A
 
@@ -75,18 +76,6 @@ class any_valid_at:
             any_valid_at(d, u, ns, o, k + 1, i)
 
 
-@lemma("leafy_at")
-class leafy_at:
-    types = dict(u="list", ns="dict", k="int", i="int")
-    requires = lambda u, ns, k, i: A.LEAFY_ALL(u, ns, k) and 0 <= k and k <= i and i < len(u)
-    ensures = lambda u, ns, k, i: A.LEAFY(u[i], ns)
-    decreases = lambda u, ns, k, i: i - k
-
-    def body(u, ns, k, i):
-        if k < i:
-            leafy_at(u, ns, k + 1, i)
-
-
 @lemma("all_str_at")
 class all_str_at:
     """every element of a list of strings is a string"""
@@ -98,3 +87,268 @@ class all_str_at:
     def body(xs, k, i):
         if k < i:
             all_str_at(xs, k + 1, i)
+
+
+@lemma("genok_at")
+class genok_at:
+    types = dict(u="list", ns="dict", k="int", i="int")
+    requires = lambda u, ns, k, i: A.GENOK_ALL(u, ns, k) and 0 <= k and k <= i and i < len(u)
+    ensures = lambda u, ns, k, i: A.GENOK(u[i], ns)
+    decreases = lambda u, ns, k, i: i - k
+
+    def body(u, ns, k, i):
+        if k < i:
+            genok_at(u, ns, k + 1, i)
+
+
+@lemma("allvalid_r_append")
+class allvalid_r_append:
+    """appending an element does not disturb what is known about the elements before it"""
+    types = dict(xs="list", x="py", s="py", ns="dict", o="dict", hi="int")
+    opaque_here = ["VALID"]
+    requires = lambda xs, x, s, ns, o, hi: 0 <= hi and hi <= len(xs) and A.ALL_VALID_R(xs, s, ns, o, hi)
+    ensures = lambda xs, x, s, ns, o, hi: A.ALL_VALID_R(xs + [x], s, ns, o, hi)
+    decreases = lambda xs, x, s, ns, o, hi: hi
+
+    def body(xs, x, s, ns, o, hi):
+        if hi > 0:
+            allvalid_r_append(xs, x, s, ns, o, hi - 1)
+            nth_concat_left(xs, [x], hi - 1)
+
+
+@lemma("allvalid_bridge")
+class allvalid_bridge:
+    """'the first hi validate' and 'those from hi on validate' give 'all validate'"""
+    types = dict(xs="list", s="py", ns="dict", o="dict", hi="int")
+    opaque_here = ["VALID"]
+    requires = lambda xs, s, ns, o, hi: (
+        0 <= hi and hi <= len(xs) and A.ALL_VALID_R(xs, s, ns, o, hi) and A.ALL_VALID(xs, s, ns, o, hi))
+    ensures = lambda xs, s, ns, o, hi: A.ALL_VALID(xs, s, ns, o, 0)
+    decreases = lambda xs, s, ns, o, hi: hi
+
+    def body(xs, s, ns, o, hi):
+        if hi > 0:
+            allvalid_bridge(xs, s, ns, o, hi - 1)
+
+
+@lemma("allstr_r_append")
+class allstr_r_append:
+    types = dict(xs="list", x="py", hi="int")
+    requires = lambda xs, x, hi: 0 <= hi and hi <= len(xs) and A.ALL_STR_R(xs, hi)
+    ensures = lambda xs, x, hi: A.ALL_STR_R(xs + [x], hi)
+    decreases = lambda xs, x, hi: hi
+
+    def body(xs, x, hi):
+        if hi > 0:
+            allstr_r_append(xs, x, hi - 1)
+            nth_concat_left(xs, [x], hi - 1)
+
+
+@lemma("allstr_bridge")
+class allstr_bridge:
+    types = dict(xs="list", hi="int")
+    requires = lambda xs, hi: 0 <= hi and hi <= len(xs) and A.ALL_STR_R(xs, hi) and A.ALL_STR(xs, hi)
+    ensures = lambda xs, hi: A.ALL_STR(xs, 0)
+    decreases = lambda xs, hi: hi
+
+    def body(xs, hi):
+        if hi > 0:
+            allstr_bridge(xs, hi - 1)
+
+
+# ---- three primitive facts about sequences, over plain variables (the sequence solver decides these at once);
+# ---- everything below about slices, updates and dictionaries is obtained from instances of them
+@lemma("nth_concat_left")
+class nth_concat_left:
+    types = dict(a="list", b="list", i="int")
+    requires = lambda a, b, i: 0 <= i and i < len(a)
+    ensures = lambda a, b, i: same((a + b)[i], a[i])
+
+    def body(a, b, i):
+        pass
+
+
+@lemma("nth_concat_right")
+class nth_concat_right:
+    types = dict(a="list", b="list", i="int")
+    requires = lambda a, b, i: len(a) <= i and i < len(a) + len(b)
+    ensures = lambda a, b, i: same((a + b)[i], b[i - len(a)])
+
+    def body(a, b, i):
+        pass
+
+
+@lemma("split_at")
+class split_at:
+    """a list is its first j elements followed by the rest"""
+    types = dict(xs="list", j="int")
+    requires = lambda xs, j: 0 <= j and j <= len(xs)
+    ensures = lambda xs, j: same(xs, xs[:j] + xs[j:]) and len(xs[:j]) == j and len(xs[j:]) == len(xs) - j
+
+    def body(xs, j):
+        pass
+
+
+@lemma("nth_at_update")
+class nth_at_update:
+    """overwriting position j puts the new value at position j"""
+    types = dict(xs="list", j="int", v="py")
+    requires = lambda xs, j, v: 0 <= j and j < len(xs)
+    ensures = lambda xs, j, v: same((xs[:j] + [v] + xs[j + 1:])[j], v)
+
+    def body(xs, j, v):
+        split_at(xs, j)
+        nth_concat_left(xs[:j] + [v], xs[j + 1:], j)
+        nth_concat_right(xs[:j], [v], j)
+
+
+@lemma("allvalid_r_replace")
+class allvalid_r_replace:
+    """overwriting one element by a valid one keeps 'the first hi validate'"""
+    types = dict(xs="list", idx="int", v="py", s="py", ns="dict", o="dict", hi="int")
+    opaque_here = ["VALID"]
+    requires = lambda xs, idx, v, s, ns, o, hi: (
+        0 <= idx and idx < len(xs) and 0 <= hi and hi <= len(xs)
+        and A.ALL_VALID_R(xs, s, ns, o, hi) and A.VALID(v, s, ns, o))
+    ensures = lambda xs, idx, v, s, ns, o, hi: A.ALL_VALID_R(xs[:idx] + [v] + xs[idx + 1:], s, ns, o, hi)
+    decreases = lambda xs, idx, v, s, ns, o, hi: hi
+
+    def body(xs, idx, v, s, ns, o, hi):
+        if hi > 0:
+            allvalid_r_replace(xs, idx, v, s, ns, o, hi - 1)
+            # which element sits at position hi - 1 of the updated list
+            if hi - 1 == idx:
+                nth_at_update(xs, idx, v)
+            else:
+                nth_of_update(xs, idx, v, hi - 1)
+
+
+@lemma("map_step")
+class map_step:
+    """one `d[k] = v` of a map under construction: string keys and valid values stay string keys and valid values"""
+    types = dict(d="dict", k="py", v="py", s="py", ns="dict", o="dict")
+    opaque_here = ["VALID"]
+    requires = lambda d, k, v, s, ns, o: (
+        isinstance(k, str) and A.VALID(v, s, ns, o)
+        and A.ALL_STR_R(list(d), len(d)) and A.ALL_VALID_R(list(d.values()), s, ns, o, len(d)))
+    ensures = lambda d, k, v, s, ns, o: (
+        A.ALL_STR_R(list(dset(d, k, v)), len(dset(d, k, v)))
+        and A.ALL_VALID_R(list(dset(d, k, v).values()), s, ns, o, len(dset(d, k, v))))
+
+    def body(d, k, v, s, ns, o):
+        if k in d:
+            allvalid_r_replace(list(d.values()), list(d).index(k), v, s, ns, o, len(d))
+        else:
+            allstr_r_append(list(d), k, len(d))
+            allvalid_r_append(list(d.values()), v, s, ns, o, len(d))
+            assert same(list(dset(d, k, v)), list(d) + [k])
+            nth_concat_right(list(d), [k], len(d))
+            nth_concat_right(list(d.values()), [v], len(d))
+            assert same(list(dset(d, k, v).values()), list(d.values()) + [v])
+
+
+@lemma("nth_of_update")
+class nth_of_update:
+    """overwriting position j leaves every other position as it is"""
+    types = dict(xs="list", j="int", v="py", i="int")
+    requires = lambda xs, j, v, i: 0 <= j and j < len(xs) and 0 <= i and i < len(xs) and i != j
+    ensures = lambda xs, j, v, i: same((xs[:j] + [v] + xs[j + 1:])[i], xs[i])
+
+    def body(xs, j, v, i):
+        split_at(xs, j)
+        split_at(xs, j + 1)
+        if i < j:
+            nth_concat_left(xs[:j] + [v], xs[j + 1:], i)
+            nth_concat_left(xs[:j], [v], i)
+            nth_concat_left(xs[:j], xs[j:], i)
+        else:
+            nth_concat_right(xs[:j] + [v], xs[j + 1:], i)
+            nth_concat_right(xs[:j + 1], xs[j + 1:], i)
+
+
+@lemma("dset_other")
+class dset_other:
+    """d[x] = v leaves every other entry where it is and as it is"""
+    types = dict(d="dict", x="py", v="py", k="py")
+    requires = lambda d, x, v, k: k in d and not same(k, x)
+    ensures = lambda d, x, v, k: k in dset(d, x, v) and same(A.DVAL(dset(d, x, v), k), A.DVAL(d, k))
+
+    def body(d, x, v, k):
+        i = list(d).index(k)
+        assert same(list(d)[i], k)
+        if x in d:
+            j = list(d).index(x)
+            assert same(list(d)[j], x)
+            assert i != j
+            assert same(list(dset(d, x, v)), list(d))
+            assert same(list(dset(d, x, v).values()), list(d.values())[:j] + [v] + list(d.values())[j + 1:])
+            nth_of_update(list(d.values()), j, v, i)
+        else:
+            assert same(list(dset(d, x, v)), list(d) + [x])
+            assert same(list(dset(d, x, v).values()), list(d.values()) + [v])
+            assert (list(d) + [x]).index(k) == i
+            nth_concat_left(list(d.values()), [v], i)
+
+
+@lemma("dset_same")
+class dset_same:
+    """after d[k] = v, k is present and d[k] is v"""
+    types = dict(d="dict", k="py", v="py")
+    ensures = lambda d, k, v: k in dset(d, k, v) and same(A.DVAL(dset(d, k, v), k), v)
+
+    def body(d, k, v):
+        if k in d:
+            j = list(d).index(k)
+            assert same(list(d)[j], k)
+            assert same(list(dset(d, k, v)), list(d))
+            assert same(list(dset(d, k, v).values()), list(d.values())[:j] + [v] + list(d.values())[j + 1:])
+            nth_at_update(list(d.values()), j, v)
+        else:
+            assert same(list(dset(d, k, v)), list(d) + [k])
+            assert same(list(dset(d, k, v).values()), list(d.values()) + [v])
+            assert (list(d) + [k]).index(k) == len(d)
+            nth_concat_right(list(d.values()), [v], len(d))
+
+
+@lemma("rec_frame")
+class rec_frame:
+    """storing a value under a name that none of the first hi fields has leaves those fields as they are"""
+    types = dict(fs="list", d="dict", x="py", v="py", ns="dict", o="dict", hi="int")
+    opaque_here = ["VALID"]
+    requires = lambda fs, d, x, v, ns, o, hi: (
+        0 <= hi and hi <= len(fs) and A.REC_R(fs, d, ns, o, hi) and A.NOT_AMONG(fs, x, hi))
+    ensures = lambda fs, d, x, v, ns, o, hi: A.REC_R(fs, dset(d, x, v), ns, o, hi)
+    decreases = lambda fs, d, x, v, ns, o, hi: hi
+
+    def body(fs, d, x, v, ns, o, hi):
+        if hi > 0:
+            rec_frame(fs, d, x, v, ns, o, hi - 1)
+            dset_other(d, x, v, A.FNAME(fs, hi - 1))
+
+
+@lemma("rec_bridge")
+class rec_bridge:
+    """'the first hi fields are present and valid' and 'the fields from hi on are valid' give 'all fields are valid'"""
+    types = dict(fs="list", d="dict", ns="dict", o="dict", hi="int")
+    opaque_here = ["VALID"]
+    requires = lambda fs, d, ns, o, hi: (
+        0 <= hi and hi <= len(fs) and A.REC_R(fs, d, ns, o, hi) and A.FIELDS_VALID(fs, d, ns, o, hi))
+    ensures = lambda fs, d, ns, o, hi: A.FIELDS_VALID(fs, d, ns, o, 0)
+    decreases = lambda fs, d, ns, o, hi: hi
+
+    def body(fs, d, ns, o, hi):
+        if hi > 0:
+            rec_bridge(fs, d, ns, o, hi - 1)
+
+
+@lemma("not_among_at")
+class not_among_at:
+    """a name that none of the first hi fields has is not the name of field i < hi"""
+    types = dict(fs="list", x="py", hi="int", i="int")
+    requires = lambda fs, x, hi, i: A.NOT_AMONG(fs, x, hi) and 0 <= i and i < hi
+    ensures = lambda fs, x, hi, i: not same(A.FNAME(fs, i), x)
+    decreases = lambda fs, x, hi, i: hi - i
+
+    def body(fs, x, hi, i):
+        if i < hi - 1:
+            not_among_at(fs, x, hi - 1, i)
